@@ -40,6 +40,10 @@ def do_send(sc, rng):
         else:
             ws, s = connected_ws([], get_mask_key=ks)
         s.accept = list(sc["accept"]) if sc.get("accept") else None   # short writes apply to frames only
+        if sc.get("dispatcher"):
+            # the path every WebSocketApp connection takes: writes go through the dispatcher's send()
+            from websocket._dispatcher import Dispatcher
+            ws.dispatcher = Dispatcher(None, None)
         ks.draws.clear()               # the handshake key (16 bytes of os.urandom) is not a mask key
         mark = len(s.written)
         payload = sc["_payload"]
@@ -151,6 +155,7 @@ def scenarios(tier, rng):
     for n in (1, 5, 126, 300):
         for pat in ([1] * 400, [2, 3, 1, 100], [1, 1000000], [7]):
             yield {"api": "send", "op": 2, "lcg": [n, n], "key": "bytes", "accept": pat}
+            yield {"api": "send", "op": 2, "lcg": [n, n + 1], "key": "bytes", "accept": pat, "dispatcher": True}
     # Unicode text, BMP and astral, through send / send_text
     texts = ["", "a", "héllo", "€", "\U0001F600", "\U00010000\U0010FFFF", "a" * 125 + "é", "߿ࠀ￿", "ascii only"]
     for _ in range(40 if tier == "quick" else 2000):
@@ -199,9 +204,44 @@ def judge(sc, got, spec_line, T, model_line=None):
             T.fail("corr", pub, model_line, mine, dict(sig_base, cls="model"))
 
 
+def cross_connection_keys(T):
+    """Several connections in one process, each with its own key source, used alternately: every frame's key is the one
+    just drawn from the source configured for ITS connection (nothing shared or cached between connections)."""
+    import websocket
+    apis = [("ping", lambda ws: ws.ping()), ("pong", lambda ws: ws.pong()), ("ping-p", lambda ws: ws.ping(b"x")),
+            ("send-empty-bin", lambda ws: ws.send(b"", 2)), ("send-empty-text", lambda ws: ws.send("")), ("send", lambda ws: ws.send(b"abc", 2)),
+            ("send_close", lambda ws: ws.send_close())]
+    real_urandom = os.urandom
+    for name, call in apis:
+        ka, kb, kd = KeySource("bytes", random.Random(1)), KeySource("bytes", random.Random(2)), KeySource("bytes", random.Random(3))
+        try:
+            os.urandom = kd
+            conns = [("custom-A", ka) + connected_ws([], get_mask_key=ka), ("default", kd) + connected_ws([]), ("custom-B", kb) + connected_ws([], get_mask_key=kb)]
+            for _, ks, _, _ in conns:
+                ks.draws.clear()
+            order = [0, 1, 2, 1, 0, 1] if name != "send_close" else [0, 1, 2]
+            for i in order:
+                label, ks, ws, s = conns[i]
+                mark, ndraw = len(s.written), len(ks.draws)
+                call(ws)
+                wire = bytes(s.written[mark:])
+                drawn = ks.draws[ndraw:]
+                T.case(("xconn", name, i, len(ks.draws)), nontrivial=True, bucket="cross-connection-keys")
+                if len(drawn) != 1 or len(wire) < 6 or wire[2:6] != drawn[0]:
+                    T.fail("spec", {"kind": "cross-connection", "api": name, "connection": label, "order": order},
+                           "the 4-byte key just drawn from this connection's own source", f"drawn={[d.hex() for d in drawn]} wire={wire[:8].hex()}",
+                           {"site": "WebSocket." + name.split("-")[0], "cls": "key-source", "cross_connection": True},
+                           what="a frame was masked with a key that was not drawn from the key source configured for its connection")
+                    return
+        finally:
+            os.urandom = real_urandom
+
+
 def run(ctx, only=None):
     T = Tally()
     rng = random.Random(ctx.seed)
+    if only is None:
+        cross_connection_keys(T)
     scs = [materialise(s) for s in (only if only is not None else scenarios(ctx.tier, rng))]
     gots = [do_send(s, random.Random(i * 7919 + ctx.seed)) for i, s in enumerate(scs)]
     spec_reqs, model_reqs, model_idx = [], [], []
@@ -263,6 +303,9 @@ def search(ctx):
 
 def replay(ctx, sc):
     T = Tally()
+    if sc.get("kind") == "cross-connection":
+        cross_connection_keys(T)
+        return T.failures[0] if T.failures else None
     sc = materialise(dict(sc))
     got = do_send(sc, random.Random(1))
     sp = ctx.spec.run([f"decode {hx(got['wire'])}"])[0]
